@@ -143,6 +143,27 @@ func stepRT(p *prog, idx int, toks []string) *rec {
 		r.stop = enc == "panic"
 		return r
 	}
+	// the encoded bytes are the caller's: another tensor is encoded in the same format before they are decoded (an encoder
+	// that hands out memory it will use again would overwrite them)
+	guard(func() error {
+		other := tensor.New(tensor.WithShape(3, 2), tensor.WithBacking([]float64{91, 92, 93, 94, 95, 96}))
+		var scratch bytes.Buffer
+		switch format {
+		case "gob":
+			return gob.NewEncoder(&scratch).Encode(other)
+		case "npy":
+			return other.WriteNpy(&scratch)
+		case "csv":
+			return other.WriteCSV(&scratch)
+		case "pb":
+			_, err := other.PBEncode()
+			return err
+		case "fb":
+			_, err := other.FBEncode()
+			return err
+		}
+		return nil
+	})
 	t2 := new(tensor.Dense)
 	dec := guard(func() error {
 		switch format {
